@@ -101,7 +101,7 @@ def outcomeErr : String → Err
   | "TypeError" => .typeError
   | "ShapeError" => .shapeError
   | "IndexError" => .indexError
-  | s => .valueError s
+  | s => if s.startsWith "ValueError:" then .valueError (String.ofList (s.toList.drop 11)) else .valueError s
 
 def h : Handler := fun op j =>
   match op with
